@@ -11,6 +11,7 @@ import (
 	"errors"
 	"fmt"
 	"io"
+	"regexp"
 	"runtime/debug"
 	"sort"
 	"time"
@@ -283,6 +284,22 @@ func (t *Token) Reload() (*Token, error) {
 	return &Token{B: nb, Blocks: t.Blocks, Pub: t.Pub, Priv: t.Priv, KeyID: t.KeyID, Sealed: t.Sealed}, nil
 }
 
+var failedCheckRe = regexp.MustCompile(`failed to verify (?:block #?(\d+) )?check #(\d+)`)
+
+// FailedChecks extracts which checks an authorization error names as failed.
+func FailedChecks(msg string) []string {
+	out := []string{}
+	for _, m := range failedCheckRe.FindAllStringSubmatch(msg, -1) {
+		if m[1] == "" {
+			out = append(out, "A:"+m[2])
+		} else {
+			out = append(out, "B"+m[1]+":"+m[2])
+		}
+	}
+	sort.Strings(out)
+	return out
+}
+
 // AddContent adds authorizer content to an authorizer.
 func AddContent(a biscuit.Authorizer, c ast.AuthContent) {
 	for _, f := range c.Facts {
@@ -301,6 +318,7 @@ func AddContent(a biscuit.Authorizer, c ast.AuthContent) {
 
 // Obs is what one authorization looks like from outside.
 type Obs struct {
+	Failed  []string   `json:"failed_checks,omitempty"` // checks the library names as failed: A:<j> (authorizer), B<i>:<j> (block i)
 	Class   Class      `json:"class"`
 	Err     string     `json:"err,omitempty"`
 	Queries [][]string `json:"queries,omitempty"` // per probe: sorted canonical fact keys, or ["ERR"]
@@ -356,6 +374,7 @@ func ObserveOn(a biscuit.Authorizer, content ast.AuthContent, probes []ast.Rule)
 		o.Class = Classify(err)
 		if err != nil {
 			o.Err = core.Head(err.Error(), 300)
+			o.Failed = FailedChecks(err.Error())
 		}
 		for _, q := range probes {
 			ks, err := QueryKeys(a, q)
